@@ -177,6 +177,7 @@ def harmonic_tie(ck, stats, mhx, mx, run, fast, tag):
         m = subprocess.run([mx, "assemble-mh"], input="\n".join(proto) + "\n", stdout=subprocess.PIPE, text=True, timeout=600)
         nn_ = sum(1 for t_ in toks if t_[0] == "n")
         feat["circuit_rows"] += sum(1 for l in m.stdout.splitlines() if l.startswith("E ") and int(l.split()[1]) < nn_ <= int(l.split()[2]))
+        stats["_prox"] = {i_: complex(tok2d(t_[3]), tok2d(t_[4])) for i_, t_ in enumerate([t2 for t2 in toks if t2[0] == "lab"])}
         d = compare_csystems(open(dump).read().splitlines(), m.stdout.splitlines())
         stats["systems_compared"] = stats.get("systems_compared", 0) + 1
         stats["systems_compared_harmonic" + tag] = stats.get("systems_compared_harmonic" + tag, 0) + 1
@@ -187,7 +188,7 @@ def harmonic_tie(ck, stats, mhx, mx, run, fast, tag):
 
 
 
-def check_harmonic_solution(ck, stats, p, run, tag=""):
+def check_harmonic_solution(ck, stats, p, run, tag="", prox=None):
     """stage P on a time-harmonic problem: solve with the real fsolver, hook residual, independent SI assembly at the written potentials"""
     slog = os.path.join(run.dir, "solve.log")
     rc = run.solve(env=dict(os.environ, XFEMM_VERIF_SOLVELOG=slog))
@@ -209,11 +210,18 @@ def check_harmonic_solution(ck, stats, p, run, tag=""):
     nl = int(rest[0][0])
     A = np.array([complex(v[0], v[1]) for v in mesh.vals])
     rec = [(int(r[0]), complex(float(r[1]), float(r[2]))) for r in rest[1:1 + nl]]
-    K, f, fixed = fem_oracle.harmonic_system(mesh, rec)
+    K, f, fixed = fem_oracle.harmonic_system(mesh, rec, prox)
     findings, res = fem_oracle.check_solution(K, f, A, fixed, {}, [], None, tol=1e-6)
     stats["worst_oracle_residual"] = max(stats["worst_oracle_residual"], res["global_residual"])
     stats["variant_solutions_checked"] = stats.get("variant_solutions_checked", 0) + 1
+    used = set(lab["block"] for lab in p.labels)
+    cca = any(m.get("LamType", 0) in (7, 8) and m.get("Sigma", 0.0) != 0 for i_, m in enumerate(p.blockprops) if i_ in used)
     for (key, what, data) in findings[:2]:
+        if key == "non-finite" and cca:
+            # copper-clad aluminium wire (LamType 7 / 8): GetFillFactor has the curve fit but no wire radius for these types -> 0/0
+            ck.violation("harmonic:cca-wire:nan", "time-harmonic problem with a conducting copper-clad-aluminium wire region (LamType 7 / 8): " + what,
+                         dict(files=run.files(), detail=data, units=p.units, frequency=p.freq))
+            continue
         ck.violation("oracle:" + key + tag, "fsolver's solution violates the independently assembled equations: " + what,
                      dict(files=run.files(), detail=data, units=p.units, frequency=p.freq))
 
@@ -341,15 +349,19 @@ def main(argv):
             # variant with lag angles, laminations, stranded regions, small-skin-depth / complex mixed boundaries
             if mhx and p.harmonic:
                 harmonic_tie(ck, stats, mhx, mx, run, False, "")
+                stats.pop("_prox", None)
                 run.restore_mesh()
                 pv = harmonic_variant(rng, p)
                 runv = Run(build, work, "p%d_var" % t, pv)
                 if runv.mesh() == 0:
                     harmonic_tie(ck, stats, mhx, mx, runv, True, "_variant")
                     runv.restore_mesh()
-                    # the proximity-effect permeability of stranded regions is a curve fit the oracle does not re-derive
-                    if not any(m.get("LamType", 0) > 2 and m.get("Sigma", 0.0) != 0 for m in pv.blockprops):
-                        check_harmonic_solution(ck, stats, pv, runv, ":variant")
+                    # the proximity-effect permeability of stranded regions is a curve fit the oracle does not re-derive: it is taken
+                    # from the state the real solver printed (per label), everything else of the equations is assembled independently
+                    prox = stats.pop("_prox", None)
+                    if prox is not None or not any(m.get("LamType", 0) > 2 and m.get("Sigma", 0.0) != 0 for m in pv.blockprops):
+                        check_harmonic_solution(ck, stats, pv, runv, ":variant", prox)
+                stats.pop("_prox", None)
             slog = os.path.join(run.dir, "solve.log")
             rc = run.solve(env=dict(os.environ, XFEMM_VERIF_SOLVELOG=slog))
             if rc != 0 or not os.path.exists(run.solution_path()):
